@@ -130,9 +130,14 @@ fn check_prop(args: &[String]) {
             let (fl, ce) = (x.floor(), x.ceil());
             let frac = x - fl;
             chk(r == fl || r == ce, "C07a: fuzzy_round result is not floor(x) or ceil(x)");
-            if frac < 0.5 - 1.0000001e-11 { chk(r == fl, "C07a: fuzzy_round rounds up a number further than 1e-11 below X.5"); }
-            if frac >= 0.5 - 4e-12 { chk(r == ce, "C07a: fuzzy_round rounds down a number at or within 4e-12 of X.5"); }
             if frac == 0.0 { chk(r == x, "C07a: fuzzy_round changes an integer"); }
+            if x >= 0.0 {
+                if frac < 0.5 - 1.0000001e-11 { chk(r == fl, "C07a: fuzzy_round rounds up a number further than 1e-11 below X.5"); }
+                if frac >= 0.5 - 4e-12 { chk(r == ce, "C07a: fuzzy_round rounds down a number at or within 4e-12 of X.5"); }
+            } else {
+                if frac > 0.5 + 1.0000001e-11 { chk(r == ce, "C07a: fuzzy_round rounds a negative number away from zero although it is further than 1e-11 from X.5"); }
+                if frac <= 0.5 + 4e-12 { chk(r == fl, "C07a: fuzzy_round rounds a negative number at or beyond X.5 (within 4e-12) towards zero"); }
+            }
         }
         "c07_modulo" => {
             let (n1, n2) = (a[0], a[1]);
